@@ -7,9 +7,8 @@ from mirfacts import callee_path, resolved_id
 
 FLATTEN = {'CodeBlock': ['Code'], 'ModuleImport': ['ImportItems']}
 
-# before the items no line comment can occur: outside parentheses a line break ends the import (parser: module_import, code mode), and the
-# trivia after the last token of a node are not part of the node
-IMPORT_PREFIX = grammar._u(['Import', 'As', 'Colon', 'Star', 'Ident'], grammar.CODE_EXPR, ['Space', 'BlockComment'])
+# (a line comment can occur before the items when the import sits inside parentheses, where line breaks do not end it)
+IMPORT_PREFIX = grammar._u(['Import', 'As', 'Colon', 'Star', 'Ident'], grammar.CODE_EXPR, grammar.TRIVIA)
 IMPORT_ITEMS_PART = grammar._u(['LeftParen', 'RightParen', 'ImportItems'], grammar.TRIVIA)
 IMPORT_ITEMS_FLAT = grammar._u(['LeftParen', 'RightParen', 'ImportItemPath', 'RenamedImportItem', 'Comma'], grammar.TRIVIA)
 CHAIN_NODES = grammar._u(grammar.CODE_EXPR, ['MathIdent'])
@@ -413,6 +412,18 @@ def evaluate_sequence(w, b, param, parent_kind, seq, no_inline=None, max_paths=4
     ip.no_inline = no_inline or (lambda tb: (tb.short.endswith('::print_doc') or tb.short.endswith('collect_markup_repr') or 'context::{impl#' in tb.short
                                              or 'get_fold_style' in tb.short or tb.short.startswith('attr::') or tb.short.endswith('has_comment_children')) and tb.id != b.id)
     def items(interp, m, f, t):
+        if any(x.get('ended') for x in (m.iter or [])):
+            # the sequence was consumed by an earlier loop: later loops of the converter iterate one representative significant child
+            # (so that what they emit after the sequence is visible), or nothing when they are nested too deeply to matter
+            if len(m.iter or []) >= 3 or f.body.locals[0]['ty']['s'] == 'bool':
+                return None
+            dflt = grammar._u(grammar.CHILDREN.get(parent_kind, []), [x for fk in FLATTEN.get(parent_kind, []) for x in grammar.CHILDREN.get(fk, [])])
+            ks = [k for k in loop_kinds_override(b.short, f.body.short, 0, True, dflt) if k not in grammar.TRIVIA]
+            inner = [k for k in ks if k in grammar.CHILDREN]
+            pick = (inner or ks)[:1]
+            if not pick:
+                return []
+            return ('seq', [Node('child', pick[0]), 'END'])
         depth = len(m.iter or [])
         if depth >= 2 or f.body.locals[0]['ty']['s'] == 'bool':
             return None
